@@ -84,6 +84,21 @@ static void run_case(const Geom &g, const Opt &o, bool emit, int big_threshold) 
       .raw("h_dec_trail", h64(dt.ok ? geom_digest(*dt.pc, dt.is_mesh) : 3)).b("trailok", dt.ok).i("trail", trail).i("remaining", dt.remaining).i("remaining0", d1.remaining);
   out.i("rp", e1.reported_points).i("rf", e1.reported_faces).i("dp", d1.ok ? d1.pc->num_points() : -1).i("df", d1.ok && d1.is_mesh ? d1.mesh()->num_faces() : (d1.ok ? 0 : -1));
   out.raw("sv", d1.ok ? struct_json(*d1.pc, d1.is_mesh) : "{\"np\":0,\"nf\":0,\"maxface\":-1,\"atts\":[]}");
+  {  // a decoder on which the skip flag of every type was set and then cleared again (Decoder::options(), value false): nothing is skipped, the decode
+     // is the ordinary one -- the option's VALUE decides, not its presence
+    bool cleared_same = true;
+    if (e1.ok && d1.ok && !skip.empty()) {
+      Decoder dc;
+      for (auto t : skip) dc.SetSkipAttributeTransform(t);
+      for (auto t : skip) dc.options()->SetAttributeBool(t, "skip_attribute_transform", false);
+      DecoderBuffer db; db.Init(e1.bytes.data(), e1.bytes.size());
+      uint64_t hc = 4;
+      if (d1.is_mesh) { Mesh m; if (dc.DecodeBufferToGeometry(&db, &m).ok()) hc = geom_digest(m, true); }
+      else { PointCloud p; if (dc.DecodeBufferToGeometry(&db, &p).ok()) hc = geom_digest(p, false); }
+      cleared_same = hc == geom_digest(*d1.pc, d1.is_mesh);
+    }
+    out.b("cleared_same", cleared_same);
+  }
   out.b("skipok", ds.ok).raw("sv2", ds.ok ? struct_json(*ds.pc, ds.is_mesh) : "{\"np\":0,\"nf\":0,\"maxface\":-1,\"atts\":[]}");
 
   // ---- projection of input and output (C01)
